@@ -241,6 +241,30 @@ func canonJSON(s string) string {
 func (r *Replica) View() string {
 	verifrt.SetMode(verifrt.Sorted)
 	defer verifrt.SetMode(r.mode)
+	return viewOf(r)
+}
+
+// asReplica wraps any orda datatype (e.g. one rebuilt by the server) for viewOf.
+func asReplica(d interface{}) *Replica {
+	r := &Replica{stale: map[string]orda.Document{}}
+	switch x := d.(type) {
+	case orda.Counter:
+		r.cnt = x
+	case orda.Map:
+		r.mp = x
+	case orda.List:
+		r.li = x
+	case orda.Document:
+		r.doc = x
+	}
+	if dt, ok := d.(iface.Datatype); ok {
+		r.dt = dt
+		r.cuid = dt.GetCUID()
+	}
+	return r
+}
+
+func viewOf(r *Replica) string {
 	var sb strings.Builder
 	switch {
 	case r.cnt != nil:
